@@ -32,15 +32,16 @@ struct Config {
 }
 
 impl Config {
-    fn cli_args(&self) -> Vec<String> {
+    /// `spelling`: which of the documented spellings of a boolean flag is used (bare or `=true`).
+    fn cli_args(&self, spelling: u64) -> Vec<String> {
         let mut a = vec!["generate".to_string()];
         match self.exhaustive {
-            Some(true) => a.push("--exhaustive".into()),
+            Some(true) => a.push(if spelling & 1 == 0 { "--exhaustive".into() } else { "--exhaustive=true".into() }),
             Some(false) => a.push("--exhaustive=false".into()),
             None => {}
         }
         match self.serialize_empty {
-            Some(true) => a.push("--serializeEmptyCollections=true".into()),
+            Some(true) => a.push(if spelling & 2 == 0 { "--serializeEmptyCollections".into() } else { "--serializeEmptyCollections=true".into() }),
             Some(false) => a.push("--serializeEmptyCollections=false".into()),
             None => {}
         }
@@ -84,9 +85,12 @@ fn gen_lib_once(args: &[String]) -> i32 {
     let mut product_version: Option<String> = None;
     let mut crate_version: Option<String> = None;
     let mut positional = Vec::new();
+    let mut omit_default_version = false;
     let mut it = args.iter();
     while let Some(a) = it.next() {
         match a.as_str() {
+            // (understood by this driver only)
+            "--omit-default-version" => omit_default_version = true,
             "--exhaustive" | "--exhaustive=true" => {
                 cfg.exhaustive(true);
             }
@@ -113,8 +117,13 @@ fn gen_lib_once(args: &[String]) -> i32 {
     if let (Some(name), Some(v)) = (&product_name, crate_version.as_ref().or(product_version.as_ref())) {
         cfg.build_crate(name, v);
     }
+    // "Config::version ... Defaults to the version passed to build_crate": when no separate crate
+    // version is given the explicit call is redundant, and a build script may leave it out
+    let redundant = product_name.is_some() && crate_version.is_none();
     if let Some(v) = product_version {
-        cfg.version(v);
+        if !(omit_default_version && redundant) {
+            cfg.version(v);
+        }
     }
     // reach probe: iteration order of a std HashMap under this process's hash seed
     if let Ok(text) = std::fs::read_to_string(&positional[0]) {
@@ -685,6 +694,10 @@ struct Exec {
 }
 
 impl Engine for GenEngine {
+    fn property(&self) -> &'static str {
+        "C20"
+    }
+
     fn name(&self) -> &'static str {
         "gen-c20"
     }
@@ -844,8 +857,9 @@ impl Engine for GenEngine {
             } else {
                 Command::new(&program)
             };
+            let spelling = ctx.draw(4);
             let mut cmd = if use_cli {
-                base.args(cfg.cli_args());
+                base.args(cfg.cli_args(spelling));
                 base
             } else {
                 let mut c = base;
@@ -860,12 +874,15 @@ impl Engine for GenEngine {
                         product: if ctx.chance(1, 3) { Some(("other-product".to_string(), "9.9.9".to_string())) } else { None },
                         crate_version: None,
                     };
-                    c.args(wcfg.cli_args());
+                    c.args(wcfg.cli_args(ctx.draw(4)));
                     c.arg(root.join("in/ir.json")).arg(&warm_out);
                     c.arg("--then");
                     ctx.count("fault.earlier_generation_in_same_process");
                 }
-                c.args(cfg.cli_args());
+                c.args(cfg.cli_args(spelling));
+                if ctx.chance(1, 2) {
+                    c.arg("--omit-default-version");
+                }
                 c
             };
             cmd.arg(root.join("in/ir.json")).arg(&out_arg);
